@@ -288,3 +288,76 @@ def c01(ctx):
             raise Broken("binding self-test: GarbleTrace accepted a flipped decoded bit")
         ctx.cov["binding_selftest"] = {"flipped-bit": x["status"]}
     ctx.cov["rule"] = "cases are (circuit, input) pairs; non-trivial = at least two gates (fan-out / wire reuse / tweak counter advance matter); distinct by JSON"
+
+
+# ---------------------------------------------------------------- C02/C04/C16
+TP_CFG = """SPECIFICATION %s
+CONSTANTS
+  NIn = %d
+  MaxGates = %d
+  Ops = {"XOR", "XNOR", "AND", "OR", "INV"}
+  FreeS = %s
+  MaxFaults = %d
+%s
+CHECK_DEADLOCK FALSE
+"""
+
+
+def sample_cases(cases, n, seed):
+    rnd = random.Random(seed)
+    cs = list(cases)
+    rnd.shuffle(cs)
+    return cs[:n]
+
+
+@prop("C02")
+def c02(ctx):
+    thorough = ctx.tier == "thorough"
+    ctx.build()
+    ctx.assumptions += ["honest parties; OT is an ideal functionality in the specification (OT correctness is C06/C15)",
+                        "garbling correctness per gate is C01's; here the symbolic labels carry it"]
+    # (M) protocol model: all circuits <= 2 gates, all input splits, outputs, inputs
+    ctx.tlc_expect_ok("TwoParty", "TwoParty_c02.cfg", name="tp-mc", timeout=3000,
+                      cfg_text=TP_CFG % ("PSpec", 2, 2, "FALSE", 0, "INVARIANT TwoPartyOK\nINVARIANT Secrecy\nPROPERTY Completes"))
+    if thorough:
+        ctx.tlc_expect_ok("TwoParty", "TwoParty_c02.cfg", name="tp-mc-3", timeout=3000,
+                          cfg_text=TP_CFG % ("PSpec", 3, 1, "TRUE", 0, "INVARIANT TwoPartyOK\nINVARIANT Secrecy\nPROPERTY Completes"))
+    # (G) every session of the model on the real Garbler/Evaluator
+    g = ctx.tlc("TwoPartyGen", "TwoParty_gen.cfg", mode="gen", name="tp-gen", timeout=1500,
+                cfg_text=TP_CFG % ("PSpec", 2, 2, "FALSE", 0, "CONSTRAINT Emit"))
+    if g["status"] != "ok" or not g["cases"]:
+        raise Broken("TwoPartyGen failed: %s\n%s" % (g["status"], g["out"][-2000:]))
+    allc = g["cases"]
+    ctx.cov["sessions_enumerated"] = len(allc)
+    use = allc if thorough else sample_cases(allc, 500, ctx.seed)
+    cases = os.path.join(ctx.tmp, "c02cases.ndjson")
+    write_ndjson(cases, use)
+    res = os.path.join(ctx.tmp, "c02res.ndjson")
+    trace = os.path.join(ctx.tmp, "twoparty_trace.ndjson")
+    ctx.run_vh(["c02", "replay", cases, res, trace], timeout=3400)
+    n = ctx.absorb(res)
+    ctx.cov["traces_validated_against_impl"] += n
+    pres = os.path.join(ctx.tmp, "c02prog.ndjson")
+    ctx.run_vh(["c02", "programs", pres, 210 if thorough else 28], timeout=3000)
+    ctx.absorb(pres)
+    if not ctx.violations:
+        t = ctx.tlc("TwoPartyTrace", "TwoPartyTrace.cfg", mode="trace", files=[trace], timeout=1500)
+        if t["status"] in ("postcondition", "invariant"):
+            ln, line = tlc_reject_line(t["out"])
+            ctx.violation("trace-rejected", "a real session is not a behaviour of TwoParty.tla: line %s %s %s" % (ln, line, t.get("which", "")), t["out"][-2000:])
+        elif t["status"] != "ok":
+            raise Broken("TwoPartyTrace failed: %s\n%s" % (t["status"], t["out"][-3000:]))
+        rows = read_ndjson(trace)
+        r2 = [dict(r) for r in rows]
+        idx = [i for i, r in enumerate(r2) if r["ev"] == "end"]
+        e = r2[idx[len(idx) // 2]]
+        e["gout"] = [1 - e["gout"][0]] + e["gout"][1:]
+        p = os.path.join(ctx.tmp, "selftest", "twoparty_trace.ndjson")
+        os.makedirs(os.path.dirname(p), exist_ok=True)
+        write_ndjson(p, r2)
+        x = ctx.tlc("TwoPartyTrace", "TwoPartyTrace.cfg", mode="trace", files=[p], name="tp-selftest")
+        if x["status"] == "ok":
+            raise Broken("binding self-test: TwoPartyTrace accepted a flipped result bit")
+        ctx.cov["binding_selftest"] = {"flipped-result": x["status"]}
+    ctx.cov["rule"] = ("sessions = (circuit, input split n0/n1 incl. 0-bit parties, outputs, inputs) x OT flavour; "
+                       "non-trivial = two gates and both parties have input bits; compiled programs are all non-trivial")
